@@ -135,7 +135,7 @@ def check(ctx):
         "more eliminated variables than rows, cancelling coefficients, infeasible systems) and on composition/quotient/merge/"
         "rename/refines of generated contract pairs: the exception type is classified and every operand is snapshotted before "
         "and compared after a failing call. non-trivial = the call raised or the entry was faulted; distinct by fault / input")
-    proved = ctx.prove("props/C14.v", ["proofs/JsonFacts.v", "proofs/TacticsFacts.v", "proofs/AlgebraSound.v", "proofs/ParseAllFacts.v"])
+    proved = ctx.prove("props/C14.v", ["proofs/JsonFacts.v", "proofs/TacticsFacts.v", "proofs/AlgebraSound.v", "proofs/ParseAllFacts.v", "proofs/JsonGenValidate.v", "proofs/JsonGenDict.v", "proofs/JsonGenFile.v"])
     ctx.build(["model/Json.vo"])
     rng = random.Random(ctx.seed + 14)
     # ---- (i) dictionaries and files
